@@ -165,3 +165,23 @@ Definition un_tdata (x : sx) : option tdata :=
   end.
 Definition sx_state (s : state) : sx :=
   L [sx_Q (s_beat s); sx_Q (s_val s); A (s_tag s); sx_Q (s_time s); sx_Q (s_bpm s); sx_bool (s_warp s)].
+
+(* ---- simfile.notes.timed.time_notes (C13) ---- *)
+From SV Require Import Notes.
+Definition note_beat (n : note) : Q := nb_n n # Z.to_pos (nb_d n).
+(* opt: 1 TAP_TO_FAKE, 2 DROP_NOTE, 3 KEEP_NOTE *)
+Definition as_fake (n : note) : note :=
+  {| nb_n := nb_n n; nb_d := nb_d n; ncol := ncol n; ntype := 70%N; nplayer := nplayer n; nks := nks n |}.
+Definition time_note (opt : Z) (sts : list state) (d : state) (n : note) : option (Q * note) :=
+  let b := note_beat n in
+  if hittable sts d b || Z.eqb opt 3 then Some (time_at sts d b tSTOP, n)
+  else if Z.eqb opt 1 && N.eqb (ntype n) 49 then Some (time_at sts d b tSTOP, as_fake n)
+  else None.
+Fixpoint time_notes (opt : Z) (sts : list state) (d : state) (ns : list note) : list (Q * note) :=
+  match ns with
+  | [] => []
+  | n :: r => match time_note opt sts d n with
+              | Some x => x :: time_notes opt sts d r
+              | None => time_notes opt sts d r
+              end
+  end.
